@@ -737,6 +737,11 @@ func (p *Process) onStateChange(state string) {
 	switch state {
 	case types.ProcessStateSkipped:
 		p.setExitCode(1)
+	case types.ProcessStateError:
+		// a command that could not be started has not exited with 0
+		if p.getExitCode() == 0 {
+			p.setExitCode(1)
+		}
 	case types.ProcessStateRestarting:
 		fallthrough
 	case types.ProcessStateLaunching:
